@@ -138,10 +138,20 @@ pub struct Layout {
 
 impl Layout {
     pub fn generate(ch: &mut Choices, n: usize) -> Layout {
+        // 1/13 of the lexemes are real lexemes of length zero (documented: DEDENT-like tokens of
+        // hand-written lexers, told apart from inserted ones by `faulty()`); the lexeme after
+        // such a one starts at least one byte later, so that start offsets stay unique
+        let mut cells: Vec<(usize, usize)> = vec![];
+        for _ in 0..n {
+            let mut gap = ch.weighted(&[3, 2, 1, 1]);
+            let len = ch.weighted(&[1, 6, 4, 2]);
+            if gap == 0 && cells.last().map(|c| c.1 == 0).unwrap_or(false) {
+                gap = 1;
+            }
+            cells.push((gap, len));
+        }
         Layout {
-            cells: (0..n)
-                .map(|_| (ch.weighted(&[3, 2, 1, 1]), 1 + ch.weighted(&[3, 2, 1])))
-                .collect(),
+            cells,
             tail: ch.weighted(&[2, 1, 1]),
         }
     }
